@@ -1,11 +1,15 @@
 #!/usr/bin/env python3
-"""seedtest.py <seed-id> [<property> ...]
+"""seedtest.py <seed-id> [<property> ...] [--tier T]
 
-Applies /verif/seeded/<seed-id>/patch.diff to /repo, runs the quick checks of the given
-properties (default: the one in meta.json), reverts /repo, and records which checks
-raised a violation in /verif/seeded/<seed-id>/result.json.  Never leaves /repo modified."""
+Runs the checks of the given properties (default: those in meta.json) against a scratch
+worktree of /repo with /verif/seeded/<seed-id>/patch.diff applied, and records which
+checks raised a violation in /verif/seeded/<seed-id>/result.json.  /repo itself is never
+touched (the checks are pointed at the worktree through VERIF_REPO; evidence and replays of
+such runs go to the scratch cache, not to /verif/evidence).  The worktree and its build
+output are removed afterwards."""
 import json
 import os
+import shutil
 import subprocess
 import sys
 import time
@@ -14,42 +18,50 @@ VERIF = os.path.dirname(os.path.dirname(os.path.abspath(__file__)))
 
 
 def main():
-    sid = sys.argv[1]
+    args = [a for a in sys.argv[1:]]
+    tier = "quick"
+    if "--tier" in args:
+        i = args.index("--tier")
+        tier = args[i + 1]
+        del args[i:i + 2]
+    sid = args[0]
     d = os.path.join(VERIF, "seeded", sid)
     meta = json.load(open(os.path.join(d, "meta.json")))
-    props = sys.argv[2:] or meta.get("checks", [meta["property"]])
+    props = args[1:] or meta.get("checks", [meta["property"]])
     patch = os.path.join(d, "patch.diff")
-    st = subprocess.run(["git", "-C", "/repo", "status", "--porcelain", "--untracked-files=no"],
-                        capture_output=True, text=True).stdout.strip()
-    if st:
-        print("refusing: /repo has local modifications:\n" + st)
-        return 2
-    rc = subprocess.call(["git", "-C", "/repo", "apply", patch])
-    if rc != 0:
-        print("patch does not apply")
-        return 2
+    wt = f"/tmp/seedrun_{sid}"
+    cache = f"/tmp/seedcache_{sid}"
+    subprocess.call(["git", "-C", "/repo", "worktree", "remove", "--force", wt], stderr=subprocess.DEVNULL)
+    shutil.rmtree(wt, ignore_errors=True)
+    shutil.rmtree(cache, ignore_errors=True)
+    subprocess.check_call(["git", "-C", "/repo", "worktree", "add", "--detach", wt, "HEAD"],
+                          stdout=subprocess.DEVNULL, stderr=subprocess.DEVNULL)
     results = {}
     try:
+        rc = subprocess.call(["git", "-C", wt, "apply", patch])
+        if rc != 0:
+            print("patch does not apply")
+            return 2
+        env = dict(os.environ, VERIF_REPO=wt, VERIF_CACHE=cache)
         for p in props:
             t0 = time.time()
-            r = subprocess.run([sys.executable, os.path.join(VERIF, "tools", "check.py"), p, "--tier", "quick"],
-                               capture_output=True, text=True, cwd=VERIF)
+            r = subprocess.run([sys.executable, os.path.join(VERIF, "tools", "check.py"), p, "--tier", tier],
+                               capture_output=True, text=True, cwd=VERIF, env=env)
             viol = [l for l in r.stdout.splitlines() if l.startswith("VIOLATION")]
             results[p] = {"exit": r.returncode, "violations": len(viol), "first": viol[:3],
                           "summary": [l for l in r.stdout.splitlines() if l.startswith("[")][-1:],
                           "wall_s": round(time.time() - t0, 1)}
-            # keep one replay as illustration
             if viol:
                 rp = viol[0].split("replay=")[1].split()[0]
                 try:
-                    obj = json.load(open(rp))
-                    results[p]["replay_excerpt"] = json.dumps(obj)[:1500]
+                    results[p]["replay_excerpt"] = json.dumps(json.load(open(rp)))[:1500]
                 except Exception:
                     pass
-            print(p, results[p]["exit"], results[p]["violations"], results[p]["summary"])
+            print(sid, p, "exit", results[p]["exit"], "violations", results[p]["violations"], results[p]["summary"], flush=True)
     finally:
-        subprocess.call(["git", "-C", "/repo", "checkout", "--", "."])
-    json.dump({"seed": sid, "results": results, "at_repo_commit": subprocess.run(
+        subprocess.call(["git", "-C", "/repo", "worktree", "remove", "--force", wt])
+        shutil.rmtree(cache, ignore_errors=True)
+    json.dump({"seed": sid, "tier": tier, "results": results, "at_repo_commit": subprocess.run(
         ["git", "-C", "/repo", "rev-parse", "--short", "HEAD"], capture_output=True, text=True).stdout.strip()},
         open(os.path.join(d, "result.json"), "w"), indent=1)
     return 0
